@@ -13,8 +13,8 @@ for d in sorted(glob.glob(os.path.join(V, "seeded", "*"))):
         res.update(json.load(open(rp)).get("results", {}))
     det = ", ".join("%s:%s" % (k, "caught" if v["detected"] else "MISSED") for k, v in sorted(res.items())) or "not run"
     fc = m.get("files_changed"); fc = fc if isinstance(fc, str) else ", ".join(fc or [])
-    summ = " ".join(str(m.get("summary", "")).split())[:200]
-    needs = " ".join(str(m.get("needs", "")).split())[:160]
+    summ = " ".join(str(m.get("summary", "")).split())[:200].replace("|", "/")
+    needs = " ".join(str(m.get("needs", "")).split())[:160].replace("|", "/")
     rows.append("| %s | %s | %s | %s | %s | %s |" % (os.path.basename(d), m.get("property"), fc.replace("dnsrocks/", ""), summ, needs, det))
 print("| seed | property | file | change | needs | checks |\n|---|---|---|---|---|---|")
 print("\n".join(rows))
